@@ -136,6 +136,10 @@ def run(R):
             R.viol("C14.chunks.all", "returned-chunks", "encrypt() does not return both the data chunks and the additional data-map-level chunks", en_, en_.lines[0])
         R.inst("C14.chunks.all", "K6 flows-to", "encrypt() returns data chunks ∪ additional-level chunks", len(tup), okall)
 
+    # (3a') the level tag: writer and reader of DataMapLevel agree on one distinct wire name per variant (rmp-serde writes enum variants by
+    # name): two variants under one name, or a name the reader maps elsewhere, turn an Additional level into a First one on the way back
+    from serdepair import serde_agreement
+    serde_agreement(R, "C14.levels.names", ["autonomi::self_encryption::DataMapLevel"], 1)
     # (3b) reader
     fd = R.body("C14.levels.reader", CL + "fetch_from_data_map_chunk::{closure#0}")
     wl = rl = None
@@ -288,6 +292,52 @@ def run(R):
         R.every_iteration("C14.tasks.all", pt, lambda names, fields: True,
                           CallSink("*FuturesUnordered<Fut>::push", "futures_util::stream::futures_unordered::FuturesUnordered::push"),
                           "every task handed to process_tasks_with_max_concurrency is started", "the tasks")
+        # … and every result taken out of the set of running tasks reaches the returned list: the set is only pushed into, asked for its
+        # size and drained through `next().await` whose `Some(result)` is pushed; any other consumer (`by_ref().collect().now_or_never()`,
+        # a `select`, a `clear`) can take finished downloads out and drop them — decrypt then returns Ok with those chunks' ranges missing
+        prep(pt)
+        gpt = cfg_of(pt)
+        fu = {int(k) for k, v in pt.locals.items() if v.startswith("futures_util::stream::futures_unordered::FuturesUnordered<")}
+        tref = Taint(pt)
+        ALLOWED = ("FuturesUnordered<Fut>::push", "FuturesUnordered::push", "FuturesUnordered<Fut>::new", "FuturesUnordered::new", "FuturesUnordered<Fut>::len", "FuturesUnordered::len",
+                   "FuturesUnordered<Fut>::is_empty", "FuturesUnordered::is_empty", "StreamExt::next")
+        odd, nexts = [], []
+        for blk in pt.blocks:
+            t = blk["term"]
+            if t["k"] != "call" or blk["cleanup"]:
+                continue
+            touches = False
+            for a in t["args"]:
+                l = op_local(a)
+                if l is None:
+                    continue
+                if l in fu or (tref.ref_of.get(l, set()) & fu):
+                    touches = True
+            if not touches:
+                continue
+            nm = t.get("ngen") or t.get("ncallee") or ""
+            if nm.endswith("StreamExt::next"):
+                nexts.append(blk)
+            elif not nm.endswith(ALLOWED):
+                odd.append((blk, nm))
+        okres = bool(fu) and len(nexts) >= 1 and not odd
+        for blk, nm in odd[:2]:
+            R.viol("C14.tasks.all.results", "consumer:%s" % nm.split("::")[-1], "process_tasks_with_max_concurrency hands the set of running tasks to %s: results it takes out need not reach the returned list" % nm, pt, blk["term"].get("l"))
+        # each `next().await`: on its Some side the result is pushed before the set is asked again
+        vpush = {b_["id"] for b_ in pt.blocks if b_["term"]["k"] == "call" and not b_["cleanup"] and (b_["term"].get("ncallee") or "").endswith(("Vec::push", "Vec<T, A>::push", "::extend", "Vec<T, A>::extend"))}
+        for nb in nexts:
+            tr_ = Tracker(pt)
+            tr_.seed_call_result(nb["term"]["d"][0], ("Some",), True)
+            tr_.run()
+            rets_ = {b_["id"] for b_ in pt.blocks if b_["term"]["k"] == "return" and not b_["cleanup"]}
+            again = {x["id"] for x in nexts}
+            if not tr_.accept or any((gpt.reach((d,), avoid=vpush) & (rets_ | again)) for _, d in tr_.accept):
+                okres = False
+                R.viol("C14.tasks.all.results", "result-dropped", "a finished task's result (futures.next() is Some) can be left out of the returned list", pt, nb["term"].get("l"))
+                break
+        if not fu:
+            R.viol("C14.tasks.all.results", "anchor-missing:FuturesUnordered", "no FuturesUnordered in process_tasks_with_max_concurrency", pt, pt.lines[0])
+        R.inst("C14.tasks.all.results", "K2 mutator whitelist + K5 must-follow", "results leave the set of running tasks only through next().await, and each is pushed to the returned list", len(nexts), okres)
     from props.C15 import chunk_get_rule
     chunk_get_rule(R, "C14.fetch")
     fetched_chunks_rule(R, "C14")
